@@ -485,7 +485,7 @@ func sweepDisp(yield func(dispCase) bool) {
 
 func props() []rp.Prop {
 	return []rp.Prop{
-		rp.P[rtCase]{Name: "roundtrip", Checks: ev.Pick(40000, 2000000) / ev.Shards(), Gen: genRT, Sweep: sweepTypesZones, Check: checkRT},
+		rp.P[rtCase]{Name: "roundtrip", Checks: ev.Pick(40000, 8000000) / ev.Shards(), Gen: genRT, Sweep: sweepTypesZones, Check: checkRT},
 		rp.P[dispCase]{Name: "dispatch", Sweep: sweepDisp, Check: checkDisp},
 	}
 }
